@@ -57,6 +57,10 @@ class Mon(Monitor):
                     out.append(V('carry', 'pubrel-for-unknown-request', 'PUBREL(%r) on connection %d' % (p['msgId'], ci)))
                 continue
             r = w.reqs[p['req']]
+            if r.conn == ci and c.lost and c.clean and c.n_connects:
+                # something of the ended clean connection lives on (a timer nobody stopped) and still writes for it
+                out.append(V('carry', 'activity-after-clean-loss/%s/q%s' % (p['type'], r.qos),
+                             '%s of request %d written after its clean connection %d had ended' % (p['type'], r.idx, ci)))
             if r.conn != ci and not w.session_alive(r) and r.addr == c.addr:
                 out.append(V('carry', 'carried-over/%s/q%s' % (p['type'], r.qos),
                              '%s of request %d (made on connection %d, clean session) written on connection %d' % (
@@ -146,6 +150,13 @@ def scenarios(ctx):
     out.append(Scn('pub-reenter-errback', profile='pub', mode='async', init=CONNECTED, reconnects=[(True, 0, 4)],
                    reenter=('err:pub>pub',), windows=(1, 2), pub_qos=(1, 2),
                    budgets=dict(pub=2, ack=1, lose=1, disconnect=1, rebuild=1, connect=1, connack=1, setwin=1, tick=1)))
+    # repeated and misplaced acknowledgements before the clean connection ends, then time passes
+    out.append(Scn('pub-q2-dup-acks', profile='pub', mode='sync', init=CONNECTED, reconnects=[(True, 0, 4)], pub_qos=(2,),
+                   budgets=dict(pub=1 if q else 2, ack=2, dack=1, misack=1, lose=1, rebuild=1, connect=1, connack=1, tick=3)))
+    # a rebuilt protocol loses its transport before connect() is called on it
+    out.append(Scn('pub-lost-before-connect', profile='pub', mode='async', init=CONNECTED + (('setwin', 0, 2),),
+                   reconnects=[(True, 0, 4), (False, 0, 4)], lose_new=True, pub_qos=(1, 2),
+                   budgets=dict(pub=2, ack=1, lose=2, rebuild=2, connect=1, connack=1, tick=1)))
     out.append(Scn('pub-queue-w1', profile='pub', mode='sync', init=CONNECTED, reconnects=[(True, 0, 4)],
                    budgets=dict(pub=4 if q else 5, ack=0 if q else 1, lose=1, disconnect=1, rebuild=1, connect=1, connack=1,
                                 tick=0 if q else 1),
